@@ -124,7 +124,7 @@ CHECKS["C01"] = {
                     "scheduler: run-to-block, lowest task id first (schedule independence is C06)"],
     "harnesses": [
         {"probe": "core", "harness": "Harness_C01_exec", "setup": "Setup_C01_exec", "reach": ["c01.compared"], "workers": 10, "sched": "first",
-         "configs_quick": ["single", "follow"], "configs_thorough": ["single", "follow", "funcsyn", "wl1", "wl2", "omitptr", "follow_wl2"],
+         "configs_quick": ["single", "follow", "funcsyn"], "configs_thorough": ["single", "follow", "funcsyn", "wl1", "wl2", "omitptr", "follow_wl2"],
          "quick": {"params": {"budget": 2}, "sample_models": 40, "sample_every": 53}, "thorough": {"params": {"budget": 3}, "sample_models": 200, "sample_every": 523},
          "what": "generated executor (api.Generate at check time) vs reference on 10 operation families with symbolic @skip/@include variables and resolver/directive outcomes {value,null,error} within a deviation budget"},
     ],
@@ -254,7 +254,7 @@ CHECKS["C11"] = {
              what="wsConnection.subscribe + its goroutine: verdict x 0..2 payloads x panic at step k x subscription error x 3 start payloads"),
         dict(_WS, harness="Harness_C11_initTimeout", reach=["c11.timeout.fired"], sched_confirm=True, quick={"sample_models": 8},
              what="wsConnection.init with InitTimeout: silent client or connection_init, the timer firing at any scheduling point: decided once, closed once, the helper goroutine ends"),
-        dict(_WS, harness="Harness_C11_run", reach=["c11.run", "c11.run.op"], race=True, sched_confirm=True, native_retries=300, workers=12,
+        dict(_WS, harness="Harness_C11_run", reach=["c11.run", "c11.run.op"], race=True, sched_confirm=True, native_retries=4000, workers=12,
              quick={"params": {"maxlen": 2}, "sample_models": 12, "sample_every": 97}, thorough={"params": {"maxlen": 3}, "sample_models": 30, "sample_every": 997},
              what="wsConnection.run on every client script of 1..2 [3] frames over a 9-frame alphabet, long-lived operations, a scheduling decision before every frame, race check"),
     ],
@@ -602,3 +602,51 @@ CHECKS["C20"]["harnesses"].append(
      "quick": {"params": {"maxreps": 3, "budget": 0, "shapes": 3, "gated": 1, "failing": 1}, "sample_models": 10, "sample_every": 17},
      "thorough": {"params": {"maxreps": 4, "budget": 0, "shapes": 3, "gated": 1, "failing": 1}, "sample_models": 20, "sample_every": 97},
      "what": "lists of 0..3 [4] representations over {a type's representation without any key, a resolvable one, an unknown type}: several failing representations of one type in one request, every completion order of the entity goroutines, race check: one error per failed representation"})
+
+# requests that are refused must not make gqlgen's own code panic later either: the two-request sequences (query cache on / off) with
+# the recover hook asserted silent (C10's clause over histories)
+CHECKS["C10"]["harnesses"].append(
+    dict(_HTTP, harness="Harness_C09_sequence", setup="Setup_C09_sequence", reach=["seq.executed", "seq.refused"], quick={"params": {"norecover": 1}, "sample_models": 30, "sample_every": 7}, thorough={"params": {"norecover": 1}, "sample_models": 60, "sample_every": 31},
+         what="two requests (29 x 29 documents / operationNames incl. invalid ones and a variable of an unknown type, GET or POST each, query cache off / MapCache) through one server: no panic of gqlgen's own reaches the recover hook, whatever was sent before (shared with C09)"))
+
+# the default recover function is user-code containment too: every recovered panic is one error at its own position (C04), also
+# for the second panic of a process
+CHECKS["C04"]["harnesses"].append(
+    {"probe": "core", "harness": "Harness_C07_panicHistory", "setup": "Setup_C07_panicHistory", "reach": ["c07.panics"], "workers": 6, "sched": "first",
+     "configs_quick": ["single"], "configs_thorough": ["single", "follow", "wl2"], "quick": {"sample_models": 25},
+     "what": "two operations in one process with resolvers panicking at 1..2 of 5 positions each, under graphql.DefaultRecover: every panic is one error at its own path (shared with C07)"})
+
+CHECKS["C05"]["harnesses"].append(
+    {"probe": "fed", "harness": "Harness_C05_entitiesCancel", "setup": "Setup_C05_entitiesCancel", "reach": ["c05.entities"], "workers": 8, "sched": "first",
+     "configs_quick": ["fed_single"], "configs_thorough": ["fed_single", "fed_wl2", "fed_v1"], "quick": {"sample_models": 12, "sample_every": 5},
+     "what": "federation _entities over 1..3 representations (two single-lookup types, a nested key, the batch type) with the request context cancelled never / before the request / at the start of the 1st or 2nd lookup: the response function returns (deadlock = every task blocked), nothing left running"})
+CHECKS["C16"]["harnesses"].append(
+    {"probe": "fed", "harness": "Harness_C16_service", "setup": "Setup_C16_service", "reach": ["c16.service.on", "c16.service.off"], "workers": 4, "sched": "first",
+     "configs_quick": ["fed_single"], "configs_thorough": ["fed_single", "fed_v1", "fed_follow"], "quick": {"sample_models": 6},
+     "what": "the federation _service { sdl } field with introspection enabled / disabled for the operation, after no / an allowed / a refused earlier _service operation in the same process: disabled = null and one error, no schema text"})
+CHECKS["C05"]["prepare"] = probes.prepare
+CHECKS["C16"]["prepare"] = probes.prepare
+
+# scripts of three frames over the start / stop sub-alphabet (two operations on one connection, a stop for one while the other runs or
+# ends): the part of the three-frame space that the quick tier can afford
+CHECKS["C11"]["harnesses"].append(
+    dict(_WS, harness="Harness_C11_run", reach=["c11.run", "c11.run.op"], race=True, sched_confirm=True, native_retries=4000, workers=12, tag="-ops",
+         quick={"params": {"maxlen": 3, "alphabet": 4}, "sample_models": 12, "sample_every": 37}, thorough={"params": {"maxlen": 4, "alphabet": 4}, "sample_models": 20, "sample_every": 397},
+         what="wsConnection.run on every client script of 1..3 [4] frames over {start(a), start(b), stop(a), stop(b)}: two operations on one connection, stops racing the start and the end of the other operation; race check incl. map accesses"))
+
+# deferred groups are concurrency too: which payload carries a group's errors must not depend on the completion order (C06) - the defer harness
+CHECKS["C06"]["harnesses"].append(
+    {"probe": "core", "harness": "Harness_C13_defer", "setup": "Setup_C13_defer", "reach": ["c13.compared", "c13.incremental"], "workers": 12, "sched_confirm": True,
+     "configs_quick": ["single"], "configs_thorough": ["single", "follow"], "map_permute": 3,
+     "quick": {"params": {"budget": 1}, "sample_models": 12, "sample_every": 41}, "thorough": {"params": {"budget": 1}, "sample_models": 30, "sample_every": 301},
+     "what": "12 @defer families x symbolic if: variables x one outcome deviation x every completion order of groups: data and errors of the merged payloads equal the reference on every order (shared with C13)"})
+
+# the multipart/mixed transport queues payloads and serialises them at its next flush: a payload the generated executor handed over must
+# keep its bytes while later payloads are produced (C12's "each payload delivered once, intact") - the defer harness reads every payload
+# only after the whole sequence arrived
+CHECKS["C12"]["prepare"] = probes.prepare
+CHECKS["C12"]["harnesses"].append(
+    {"probe": "core", "harness": "Harness_C13_defer", "setup": "Setup_C13_defer", "reach": ["c13.compared", "c13.incremental"], "workers": 12, "sched_confirm": True,
+     "configs_quick": ["single"], "configs_thorough": ["single", "follow"], "map_permute": 3,
+     "quick": {"params": {"budget": 0}, "sample_models": 12, "sample_every": 41}, "thorough": {"params": {"budget": 1}, "sample_models": 30, "sample_every": 301},
+     "what": "12 @defer families on the generated executor, every completion order of groups, payloads read only after the whole sequence arrived (as a queueing transport does): each is still the JSON it was, the merge equals the reference (shared with C13)"})
